@@ -34,7 +34,16 @@ cglue_trait_group!(LifeGrp, Peek2, { Clone });
 
 pub struct Inst { id: i64, sub: Option<Box<Inst>> }
 impl Inst { fn new(id: i64) -> Self { LIVE.fetch_add(1, SeqCst); Inst { id, sub: None } } fn with_sub(id: i64) -> Self { let mut i = Inst::new(id); i.sub = Some(Box::new(Inst::new(id + 500))); i } }
-impl Drop for Inst { fn drop(&mut self) { LIVE.fetch_sub(1, SeqCst); DROPS.with(|d| d.borrow_mut().push(self.id)); } }
+// at the moment an instance is destroyed: how many references to the shared context exist (probe set by `run`)
+thread_local! { static CTX_PROBE: std::cell::Cell<*const Arc<()>> = std::cell::Cell::new(std::ptr::null()); static SEEN_AT_DROP: RefCell<Vec<i64>> = RefCell::new(Vec::new()); }
+impl Drop for Inst {
+    fn drop(&mut self) {
+        LIVE.fetch_sub(1, SeqCst);
+        DROPS.with(|d| d.borrow_mut().push(self.id));
+        let p = CTX_PROBE.with(|c| c.get());
+        if !p.is_null() { let n = Arc::strong_count(unsafe { &*p }) as i64; let d = crate::alloc::domain(0); SEEN_AT_DROP.with(|v| v.borrow_mut().push(n)); crate::alloc::domain(d); }
+    }
+}
 impl Clone for Inst { fn clone(&self) -> Self { Inst::new(self.id + 1000) } }
 impl Peek2 for Inst { fn peek2(&self) -> i64 { self.id } }
 impl Node for Inst {
@@ -79,6 +88,7 @@ fn take<'a>(pool: &mut Vec<H<'a>>, i: i64) -> H<'a> { if i >= 0 && (i as usize) 
 
 pub fn run(_params: &[i64], ops: &Rows, mon: &mut Mon) -> Rows {
     let arc = Arc::new(());
+    CTX_PROBE.with(|c| c.set(&arc as *const Arc<()>));
     let base = Arc::strong_count(&arc) as i64;
     let live0 = LIVE.load(SeqCst);
     let mut pool: Vec<H> = vec![];
@@ -112,7 +122,14 @@ pub fn run(_params: &[i64], ops: &Rows, mon: &mut Mon) -> Rows {
                     H::Cl(o) => res = Some(Some(H::Cl(o.clone()))),
                     H::GrpC(o) => res = Some(Some(H::GrpC(o.clone()))),
                     _ => {} } } }
-            7 => { match take(&mut pool, h) { H::Dead => {}, x => { drop(x); res = Some(None); } } }
+            7 => { match take(&mut pool, h) { H::Dead => {}, x => {
+                    // the object being destroyed still holds its context clone while its instance is destroyed
+                    let before = Arc::strong_count(&arc) as i64;
+                    let _ = SEEN_AT_DROP.with(|v| std::mem::take(&mut *v.borrow_mut()));
+                    drop(x);
+                    let seen = SEEN_AT_DROP.with(|v| std::mem::take(&mut *v.borrow_mut()));
+                    if seen.iter().any(|n| *n < before) { mon.fail(format!("op{} an instance was destroyed after its object had already released the context (count {} at that moment, {} before the drop)", k, seen.iter().min().unwrap(), before)); }
+                    res = Some(None); } } }
             11 => { match take(&mut pool, h) { H::Grp(g) => { match cast!(g impl Clone) { Some(c) => res = Some(Some(H::GrpC(c))), None => res = Some(None) } } other => { if h >= 0 && (h as usize) < pool.len() { pool[h as usize] = other; } } } }
             12 => { match take(&mut pool, h) { H::GrpC(g) => res = Some(Some(H::Grp(g.upcast()))), other => { if h >= 0 && (h as usize) < pool.len() { pool[h as usize] = other; } } } }
             13 | 14 => {
@@ -135,6 +152,7 @@ pub fn run(_params: &[i64], ops: &Rows, mon: &mut Mon) -> Rows {
         k += 1;
     }
     drop(pool);
+    CTX_PROBE.with(|c| c.set(std::ptr::null()));
     // ---- monitor: after every derived object is gone the context count is back to its starting value, nothing is alive
     let lvl = Arc::strong_count(&arc) as i64 - base;
     if lvl != 0 { mon.fail(format!("context count is {} above its starting value after all derived objects are gone", lvl)); }
